@@ -83,7 +83,9 @@ def MATCH(
             )
 
     for i, val in enumerate(lookup_array):
-        if val == lookup_value:
+        # In ascending data the match is the last value that does not
+        # exceed the lookup value, so equal values are passed over.
+        if val == lookup_value and match_type != 1:
             return i + 1
         if match_type == 1 and val > lookup_value:
             return i or xlerrors.NaExcelError(
@@ -93,4 +95,7 @@ def MATCH(
             return i or xlerrors.NaExcelError(
                 "No greater value found."
             )
+    if (match_type == 1 or match_type == -1) and lookup_array:
+        # No value lies beyond the lookup value, the last one is the match.
+        return len(lookup_array)
     return xlerrors.NaExcelError("No match found.")
